@@ -42,6 +42,17 @@ where
         }
     }
 
+    /// Verification hook: `(buffer.len(), bits_read)`, the complete private state besides the source.
+    #[cfg(feature = "verif")]
+    pub fn verif_state(&self) -> (usize, usize) {
+        let Self {
+            source: _,
+            buffer,
+            bits_read,
+        } = self;
+        (buffer.len(), *bits_read)
+    }
+
     /// Fill the internal read buffer with a given number of bytes.
     ///
     /// This function will yield all I/O errors wrapped inside of the
